@@ -36,7 +36,11 @@ def program(n, pacing='each', k=2, recon=True, eos='separate', stream_header=Tru
                 p.append({'op': 'yield', 'n': rng.randint(1, 400)})
     if eos == 'separate':
         p.append({'op': 'eos'})
-    p.append({'op': 'drain'})
+    if n == 0:
+        # an empty stream yields no packet to wait for: the application polls, it does not block
+        p += [{'op': 'yield', 'n': 3000}, {'op': 'get_packet'}] + ([{'op': 'get_recon'}] if recon else [])
+    else:
+        p.append({'op': 'drain'})
     if teardown:
         if stream_header:
             p.append({'op': 'stream_header_release'})
